@@ -745,7 +745,7 @@ func init() {
 		ID:    "C02",
 		Level: "exploration",
 		Rule: "random records (ids without blanks incl. '>' '@' '+' '{', IUPAC sequences of length 1..200 with emphasis on 59,60,61,119,120,121, qualities 0..93, definition present/absent, annotation maps with hostile strings (quotes, backslashes, braces, ';' '=' '>' '@', non-ASCII runes, control characters, the patterns quote+brace), ints to 2^53, floats, bools, map[string]int/string, []int, nested maps) are formatted by the toolkit (FASTA/FASTQ + JSON header), parsed back by the real chunk parser + json/guessed header parser and compared by value, then formatted again (byte fixed point); hand-made JSON titles are parsed, re-formatted and re-parsed; whole files go through WriteFasta/WriteFastq -> ReadSequencesFromFile and through obiconvert. " +
-			"Added later: process-wide input offset different from the output offset, title lines of 4 KiB-70 kB (large merged maps, long strings), maps under the key names merged_* / *_count / *_status holding non-integers, the stream file read back through forced read buffers of 50..4000 bytes. " +
+			"Added later: process-wide input offset different from the output offset, title lines of 4 KiB-70 kB (large merged maps, long strings), maps under the key names merged_* / *_count / *_status holding non-integers, the stream file read back through forced read buffers of 50..4000 bytes. Title lines in the other syntax the parsers accept (key=value; ... free text: sub-check obi-title, a small model of the value forms, rewritten in both syntaxes), definitions that read like such attributes. " +
 			"distinct_nontrivial = distinct (value-type set, hostile-pattern set, length class, format) tuples",
 		Assume: []string{"encoding/json defines value equality (numbers by value)", "definitions are single lines without leading/trailing blanks"},
 		Subs: []core.Sub{
